@@ -17,8 +17,8 @@ func init() {
 	reg("C02", propCfg{Pkg: "props", Quick: tierCfg{12, 10}, Thorough: tierCfg{14, 150}})
 	reg("C10", propCfg{Pkg: "props", Quick: tierCfg{8, 1000}, Thorough: tierCfg{14, 30000}})
 	reg("C11", propCfg{Pkg: "props", Quick: tierCfg{8, 1000}, Thorough: tierCfg{14, 30000}})
-	reg("C12", propCfg{Pkg: "props", Quick: tierCfg{8, 1000}, Thorough: tierCfg{14, 30000}, MemGB: 8})
-	reg("C18", propCfg{Pkg: "props", Quick: tierCfg{12, 700}, Thorough: tierCfg{14, 30000}, MemGB: 8})
+	reg("C12", propCfg{Pkg: "props", Quick: tierCfg{8, 1000}, Thorough: tierCfg{14, 30000}})
+	reg("C18", propCfg{Pkg: "props", Quick: tierCfg{12, 700}, Thorough: tierCfg{14, 30000}})
 	reg("C01", propCfg{Pkg: "props", Quick: tierCfg{12, 500}, Thorough: tierCfg{14, 20000}})
 	reg("C19", propCfg{Pkg: "props", Quick: tierCfg{4, 5000}, Thorough: tierCfg{14, 150000}})
 }
